@@ -220,14 +220,16 @@ def cases(tier, seed):
                 n = r.randint(2, 7)
                 out.append(_reuse(i, kk, "rto", "prior_matrix", n=n, liks=[_lik(r, n, m=r.randint(2, 7))],
                                   prior={"kind": "gaussian", "form": f, "mean": r.choice(["vector", "scalar"])})); i += 1
-        for bc in BCS:
-            for mutate in ("prior_matrix", "prior_mean", "noise_matrix"):
+        for kk in range(len(STAGE2)):
+            for mi, mutate in enumerate(("prior_matrix", "prior_mean", "noise_matrix")):
+                bc = BCS[(kk + mi + rep) % 3]; k = kk
                 order, pd = r.choice([0, 1, 2]), r.choice([1, 1, 2])
                 N = _gmrf_n(r, pd, order)
                 out.append(_reuse(i, k, "rto", mutate, n=N ** pd, liks=[_lik(r, N ** pd, m=r.randint(5, 8))],
                                   prior={"kind": "gmrf", "bc": bc, "order": order, "pd": pd, "N": N, "mean": "vector"})); i += 1; k += 1
-        for bc in BCS:
-            for mutate in ("lmrf_scale", "lmrf_location", "noise_matrix"):
+        for kk in range(len(STAGE2)):
+            for mi, mutate in enumerate(("lmrf_scale", "lmrf_location", "noise_matrix")):
+                bc = BCS[(kk + mi + rep) % 3]; k = kk
                 pd = r.choice([1, 1, 2]); N = r.randint(3, 7) if pd == 1 else r.choice([2, 3])
                 out.append(_reuse(i, k, "ugla", mutate, pd=pd, N=N, n=N ** pd, bc=bc, loc=("scalar" if mutate == "lmrf_location" else r.choice(["zero", "scalar"])),
                                   m=r.randint(4, 9), model=r.choice(MODELS), noise=r.choice(FORMS), beta=r.choice([1e-5, 1e-3, 1e-1]))); i += 1; k += 1
